@@ -3,6 +3,9 @@
 import json, sys
 
 CHECKS = {
+ "C01": dict(engine="SIM", design="§4 C01", technique="stateless deviation-bounded exhaustive search over environment schedules (short/would-block reads and writes, peer segmentation, readiness order) under an unmodified worker event loop with interposed syscalls and virtual time",
+   text="An unmodified sozu_lib Server::run() proxies between scripted HTTP/1.1 clients and backends over real loopback sockets while epoll_wait/read/write/clock/getrandom are interposed: for 108 (quick) / 250+ (thorough) scenarios (framing x direction x sizes straddling buffer and frame boundaries x buffer_size x keep-alive) every schedule with at most 1 (quick) / 2 (thorough) deviations is executed; request bodies at the backend and response bodies at the client must equal what was sent, end cleanly, and complete without any timer having fired.",
+   note="HTTP/1.1 to HTTP/1.1 pair only so far (H2/TLS pairs need the TLS + H2 actors). The simulated kernel only produces behaviours a Linux kernel may produce; EINTR/ENOBUFS and real TCP timing are not modelled. Six known findings, all on close-delimited responses."),
  "C15": dict(engine="ENUM", design="§4 C15", technique="bounded-exhaustive enumeration of a frame parameter lattice through the real frame_header/frame_body against an RFC 9113 reference decoder",
    text="(a) 1.5 million frames (type x flags x stream id x declared length x payload present x pad length) are decoded by the real mux parser and by a reference decoder: accept/reject class, error code, consumed length (exactly 9 + declared payload on accept) and decoded content must agree; no panic.",
    note="Part (a) only so far: the stateless decoder. Stateful connection behaviour (stream states, floods, GOAWAY classes, other connections keep being served) needs the SIM engine."),
@@ -45,7 +48,6 @@ CHECKS = {
 }
 
 PLANNED = {
- "C01": "SIM engine (syscall-level simulation of an unmodified worker) not built yet; planned, see DESIGN.md §4 C01",
  "C02": "SIM engine not built yet; planned, see DESIGN.md §4 C02",
  "C03": "SIM/ENUM check not built yet; planned, see DESIGN.md §4 C03",
  "C08": "SIM engine not built yet; planned, see DESIGN.md §4 C08",
@@ -77,13 +79,15 @@ def main():
         "hooks": {
             "guard": "--cfg sozu_verif",
             "enable": "RUSTFLAGS=--cfg sozu_verif via /verif/harness/.cargo/config.toml (every check builds /repo's crates as path dependencies with it)",
-            "baseline_off_cmd": "cd /repo && cargo test --workspace --no-fail-fast --offline",
+            "baseline_off_cmd": "cd /repo && cargo nextest run --workspace --no-fail-fast --tool-config-file pb:/w/lib/nextest.toml --profile pb --test-threads 8 --offline",
             "source_commits": hooks_commits,
             "add_only": True,
         },
         "engines": [
             {"name": "XS", "path": "/verif/harness/src/xs.rs", "serves_properties": sorted(p for p in CHECKS if CHECKS[p]["engine"].startswith("XS")),
              "kind_free_text": "explicit-state breadth-first search; every transition is a call into the real sozu code; states deduplicated on a canonical digest"},
+            {"name": "SIM", "path": "/verif/harness/src/sim", "serves_properties": sorted(p for p in CHECKS if "SIM" in CHECKS[p]["engine"]),
+             "kind_free_text": "deterministic syscall-level simulation (libc interposition) under an unmodified sozu event loop + stateless deviation-bounded exhaustive search over environment choices; executions isolated by fork"},
             {"name": "ENUM", "path": "/verif/harness/src/checks", "serves_properties": sorted(p for p in CHECKS if "ENUM" in CHECKS[p]["engine"]),
              "kind_free_text": "bounded-exhaustive enumeration of inputs / input histories executed on the real code against a boring reference"},
         ],
